@@ -36,7 +36,8 @@ package field
 //@   assumed
 //@   recv-value
 //@   modifies nothing
-//@   ensures fldName(result) == name && fldVal(result) == fields[name]
+// (for an absent field the real Get returns the zero Field, whose name is empty: the name is left unspecified here)
+//@   ensures fldVal(result) == fields[name]
 //@ func List.Set
 //@   assumed
 //@   recv-value
